@@ -581,9 +581,10 @@ def _solve_one(ob, timeout_ms, use_cvc5=True, ex=None):
     return ob
 
 
-def _path_guards(terms, limit=4):
-    """the most recent branch-guard constants (br!N) occurring in the terms"""
-    seen, found, stack = set(), {}, list(terms)
+def _path_guards(terms, limit=6):
+    """branch-guard constants (br!N) occurring in the terms: those that steer sequence-valued If-terms first (that is
+    where the sequence solver needs help), then the most recent ones"""
+    seen, found, seqg, stack = set(), {}, {}, list(terms)
     while stack:
         e = stack.pop()
         i = e.get_id()
@@ -595,6 +596,12 @@ def _path_guards(terms, limit=4):
             if n.startswith("br!"):
                 found[n] = e
         elif z3.is_app(e):
+            if e.decl().kind() == z3.Z3_OP_ITE and isinstance(e.sort(), z3.SeqSortRef):
+                c = e.arg(0)
+                sub = [c] + (list(c.children()) if z3.is_app(c) else [])
+                for x in sub:
+                    if z3.is_const(x) and x.decl().kind() == z3.Z3_OP_UNINTERPRETED and x.decl().name().startswith("br!"):
+                        seqg[x.decl().name()] = x
             stack.extend(e.children())
         elif z3.is_quantifier(e):
             stack.append(e.body())
@@ -604,24 +611,36 @@ def _path_guards(terms, limit=4):
             return int(n.split("!")[1])
         except ValueError:
             return 0
-    return [found[n] for n in sorted(found, key=idx, reverse=True)[:limit]]
+    first = [seqg[n] for n in sorted(seqg, key=idx, reverse=True)]
+    rest = [found[n] for n in sorted(found, key=idx, reverse=True) if n not in seqg]
+    return (first + rest)[:limit]
 
 
 def _case_split(terms, each_ms):
-    for b in _path_guards(terms):
-        ok = True
-        for lit in (b, z3.Not(b)):
-            s2 = z3.Solver()
-            s2.set("timeout", each_ms)
-            for ax in axioms_for(terms):
-                s2.add(ax)
-            for t in terms:
-                s2.add(t)
-            s2.add(lit)
-            if s2.check() != z3.unsat:
-                ok = False
-                break
-        if ok:
+    import itertools
+    import time as _t
+    axs = axioms_for(terms)
+
+    def refuted(lits):
+        s2 = z3.Solver()
+        s2.set("timeout", each_ms)
+        for ax in axs:
+            s2.add(ax)
+        for t in terms:
+            s2.add(t)
+        for l_ in lits:
+            s2.add(l_)
+        return s2.check() == z3.unsat
+    guards = _path_guards(terms)
+    t0 = _t.time()
+    for b in guards:
+        if refuted([b]) and refuted([z3.Not(b)]):
+            return True
+    # two guards at once (four cases), within a time budget
+    for b1, b2 in itertools.combinations(guards[:5], 2):
+        if _t.time() - t0 > 40:
+            break
+        if all(refuted([l1, l2]) for l1 in (b1, z3.Not(b1)) for l2 in (b2, z3.Not(b2))):
             return True
     return False
 
